@@ -254,10 +254,16 @@ func OnProxyConnectResponse(_ context.Context, _ *url.URL, req *http.Request, co
 	return &connectError{res}
 }
 
-func maybeConnectErrorResponse(err error) *http.Response {
+func maybeConnectErrorResponse(req *http.Request, err error) *http.Response {
 	var martianErr *connectError
 	if errors.As(err, &martianErr) {
-		return martianErr.ConnectResponse()
+		res := martianErr.ConnectResponse()
+		// The response was built for the CONNECT request the transport sent to the upstream proxy.
+		// Bind it to the request being served, otherwise it is written with that request's
+		// protocol version ("HTTP/0.0") and traced with its method.
+		res.Request = req
+		res.Proto, res.ProtoMajor, res.ProtoMinor = req.Proto, req.ProtoMajor, req.ProtoMinor
+		return res
 	}
 	return nil
 }
